@@ -6,7 +6,7 @@ From TK Require Import Dijkstra_Model Dijkstra_Spec Dijkstra_IsoModel Dijkstra_I
      Dijkstra_Proof_Base Dijkstra_Proof_Spec Dijkstra_Proof Dijkstra_Proof_Iso Dijkstra_Proof_IsoExec
      Dijkstra_Proof_Sched Dijkstra_IsoEmbed Dijkstra_IsoSelect Dijkstra_IsoOptimal Dijkstra_FibC_Model
      Dijkstra_Proof_FibC Dijkstra_Scale Dijkstra_IsoFrobenius Dijkstra_PQC_Model Dijkstra_Proof_PQC
-     Dijkstra_Proof_PQC_Heap.
+     Dijkstra_Proof_PQC_Heap Dijkstra_Proof_PQC_Sched.
 From TK Require Mds_Proof_Optimal Mds_Proof_OptimalClamped.
 From Coq Require Import Permutation.
 Import ListNotations.
@@ -197,6 +197,21 @@ Theorem threads_independent_landmark : forall fl nbrs w N K pick lm garbage sche
     landmark_matrix_sched fl nbrs w pick N K lm garbage sched inits = DOk (sp_landmarks nbrs w N lm).
 Proof. exact landmark_matrix_any_schedule. Qed.
 Print Assumptions threads_independent_landmark.
+
+(* every OpenMP schedule, priority-queue configuration over the concrete binary heap (per-thread s[], f[] and queue
+   reused across the rows a thread is given; no `pick`) *)
+Theorem threads_independent_pq_concrete : forall nbrs w N K lm garbage sched inits schedl initsl,
+    wf_graph nbrs N K -> nonneg_w nbrs w -> Forall (fun v => (v < N)%nat) lm ->
+    (forall k, length (garbage k) = N) ->
+    length inits = length sched -> Forall (tstate_ok N) inits -> Permutation (concat sched) (seq 0 N) ->
+    length initsl = length schedl -> Forall (tstate_ok N) initsl ->
+    Permutation (concat schedl) (seq 0 (length lm)) ->
+    full_matrix_sched_pqc nbrs w N K garbage sched inits = DOk (sp_matrix nbrs w N) /\
+    landmark_matrix_sched_pqc nbrs w N K lm garbage schedl initsl = DOk (sp_landmarks nbrs w N lm).
+Proof.
+  intros; split; [apply full_matrix_pqc_any_schedule | apply landmark_matrix_pqc_any_schedule]; assumption.
+Qed.
+Print Assumptions threads_independent_pq_concrete.
 
 (* ---- Isomap = classical MDS of the geodesics ----
    `iso_shipped` = embed() BEFORE commit 1e09b35 (fix F23), `iso_fixed` = the CURRENT embed() *)
@@ -498,3 +513,12 @@ Example heap_hypotheses_satisfiable :
       [(4%nat, 0); (0%nat, 1); (2%nat, 1); (3%nat, 3); (1%nat, 3)] /\
     bh_pop [(0%nat, 1); (1%nat, 3); (2%nat, 1); (3%nat, 3)] = [(2%nat, 1); (1%nat, 3); (3%nat, 3)].
 Proof. exact heap_ord_example. Qed.
+
+(* two threads, rows out of order, garbage in every array: the concrete priority-queue configuration (computed) *)
+Example schedule_pq_concrete_hypotheses_satisfiable :
+    full_matrix_sched_pqc f4_nbrs f4_w 3 1
+                      (fun k => [Some 7; None; Some (-1)])
+                      [[2; 0]; [1]]%nat
+                      [mkT [true; true; false] [false; true; true] []; mkT [true; true; true] [true; true; true] []]
+    = DOk (sp_matrix f4_nbrs f4_w 3).
+Proof. exact schedule_pqc_example. Qed.
